@@ -37,7 +37,8 @@ EXHAUSTIVE_NOTE = {"quick": "every single-preemption schedule of pair (col_a, co
 PAIRS = [("col_a", "col_b"), ("pal12_a", "pal12_b"), ("col_a", "multi_a"), ("figure", "col_b"), ("pageby", "multi_b"),
          ("raising", "col_a"), ("bcol_a", "bcol_b"), ("paged_s8", "paged_s14"), ("blk_a", "col_b"),
          ("badcolor", "col_a"), ("multi_raising", "multi_b"), ("graded_s9", "graded_s92"),
-         ("multi3_p", "multi3_l"), ("title_vec", "col_b")]
+         ("multi3_p", "multi3_l"), ("title_vec", "col_b"),
+         ("const_a", "const_b")]
 # double preemptions on a grid: thread 0 is left at its k1-th boundary, thread 1 at its k2-th, then thread 0
 # runs to its end before thread 1 resumes (and the mirror image)
 GRID_PAIRS = [("blk_a", "col_b"), ("badcolor", "col_b"), ("col_a", "col_b"), ("graded_s9", "graded_s92"),
@@ -51,7 +52,8 @@ def exhaustive(tier):
 
 def plan(tier, seed):
     descs = []
-    pairs = (PAIRS[:2] + [("multi3_p", "multi3_l"), ("title_vec", "col_b")]) if tier == "quick" else PAIRS
+    pairs = (PAIRS[:2] + [("multi3_p", "multi3_l"), ("title_vec", "col_b"), ("const_a", "const_b")]) \
+        if tier == "quick" else PAIRS
     k = 12 if tier == "quick" else 13
     for pi, pair in enumerate(pairs):
         # quick: the first pair at every call boundary, the second at every third one
